@@ -953,6 +953,7 @@ struct wstats {
 	int nsig;
 	int deadline_hit;
 	int engine_errors;
+	int slow_reruns;
 	struct sigrec sigs[MAXSIG];
 	char sample[4][512];
 	int nsample;
@@ -1086,6 +1087,15 @@ static void emit_item(struct wstats *ws, int w, const struct item *parent, uint3
 static void process_item(struct wstats *ws, int w, const struct item *it)
 {
 	int status = run_one(it->pairs, it->npairs, it->plen, NULL, 0);
+	if(status == RS_TIMEOUT) {
+		/* a wall-clock limit says nothing about a deterministic schedule on a loaded machine: run the same schedule again with
+		 * five times the limit before believing it; whatever that run ends with is the verdict of this schedule */
+		long save_to = opt_exec_timeout;
+		opt_exec_timeout *= 5;
+		status = run_one(it->pairs, it->npairs, it->plen, NULL, 0);
+		opt_exec_timeout = save_to;
+		ws->slow_reruns++;
+	}
 	ws->execs++;
 	ws->status_cnt[status & 7]++;
 	ws->steps += res_buf->steps;
@@ -1303,6 +1313,7 @@ static int explore(void)
 		total.points += ws->points;
 		total.newpoints += ws->newpoints;
 		total.engine_errors += ws->engine_errors;
+		total.slow_reruns += ws->slow_reruns;
 		if(ws->maxpoints > total.maxpoints)
 			total.maxpoints = ws->maxpoints;
 		if(ws->maxsteps > total.maxsteps)
@@ -1361,7 +1372,7 @@ static int explore(void)
 	    (unsigned long)total.status_cnt[0], (unsigned long)total.status_cnt[1], (unsigned long)total.status_cnt[2],
 	    (unsigned long)total.status_cnt[3], (unsigned long)total.status_cnt[4], (unsigned long)total.status_cnt[5],
 	    (unsigned long)total.status_cnt[6], (unsigned long)total.status_cnt[7]);
-	fprintf(f, " \"engine_errors\": %d,\n \"counters\": {", total.engine_errors);
+	fprintf(f, " \"engine_errors\": %d,\n \"slow_executions_rerun\": %d,\n \"counters\": {", total.engine_errors, total.slow_reruns);
 	first = 1;
 	for(int k = 0; k < RS_NCOUNTERS; ++k)
 		if(H->counter_names[k]) {
